@@ -2,6 +2,7 @@
 //! and writes Gallina case files that coqc evaluates against the Coq models and specifications.
 mod c06;
 mod c08;
+mod c10;
 mod genfilter;
 mod c15;
 mod c16;
@@ -57,6 +58,7 @@ fn main() {
     let a = parse_args();
     match a.cmd.as_str() {
         "c08" => c08::generate(a.seed, a.n, a.thorough).write(&a.out, a.shards, a.only),
+        "c10" => c10::generate(a.seed, a.n, a.thorough).write(&a.out, a.shards, a.only),
         "c15" => c15::generate(a.seed, a.n, a.thorough).write(&a.out, a.shards, a.only),
         "c06" => c06::generate(a.seed, a.n, a.thorough).write(&a.out, a.shards, a.only),
         "c16" => c16::generate(a.seed, a.n, a.thorough).write(&a.out, a.shards, a.only),
